@@ -142,9 +142,21 @@ fn read_source_files(
         return Err(compile_error("no input files provided".to_string()));
     }
 
-    let mut paths = input_files.to_vec();
-    paths.sort();
-    paths.dedup();
+    // A package is the set of its files, however the caller spells and orders them: order
+    // and de-duplicate by the file each path names (`d/../x.gom`, `./x.gom` and `x.gom` are one
+    // file), and keep the caller's spelling for messages.
+    let mut keyed: Vec<(PathBuf, PathBuf)> = input_files
+        .iter()
+        .map(|path| {
+            (
+                fs::canonicalize(path).unwrap_or_else(|_| path.clone()),
+                path.clone(),
+            )
+        })
+        .collect();
+    keyed.sort();
+    keyed.dedup_by(|later, earlier| later.0 == earlier.0);
+    let paths: Vec<PathBuf> = keyed.into_iter().map(|(_, given)| given).collect();
 
     let mut files = Vec::new();
     let mut imports = HashSet::new();
